@@ -290,6 +290,94 @@ let () =
       Printf.sprintf "%d %d" !h !panics
     | _ -> "BADARGS")
 
+
+let set_index = function
+  | "dl_mac" -> 0 | "ul_mac" -> 1 | "dl_dut" -> 2 | "ul_dut" -> 3 | "dl_mc" -> 4 | "ul_mc" -> 5 | _ -> failwith "set"
+let rec dec_of_z (v : z) : string =
+  match v with
+  | Z0 -> "0"
+  | Zpos p -> dec_of_n (Npos p)
+  | Zneg p -> "-" ^ dec_of_n (Npos p)
+let z_of_dec (s : string) : z =
+  if String.length s > 0 && s.[0] = '-' then
+    (match n_of_dec (String.sub s 1 (String.length s - 1)) with N0 -> Z0 | Npos p -> Zneg p)
+  else (match n_of_dec s with N0 -> Z0 | Npos p -> Zpos p)
+
+let () =
+  register "mc_read" (function
+    | [set; h] ->
+      let data = bytes_of_hex h in
+      let items = parse_all (table_of set) data in
+      if List.exists (fun i -> i = IPanic) items then "PANIC" else begin
+        let listing = if items = [] then "-" else String.concat "," (List.map item_str items) in
+        let accs = List.filter_map (function
+          | IOk (cid, p) -> Some (String.concat " " (List.map dec_of_z (mc_get (n_of_int (set_index set)) cid p)))
+          | _ -> None) items in
+        listing ^ " | " ^ String.concat " ; " accs
+      end
+    | _ -> "BADARGS");
+  register "mc_build" (function
+    | c :: args ->
+      let c = ni c in
+      (match cr_new c with
+       | None -> "BADARGS"
+       | Some cr0 ->
+         let rec go k cr = function
+           | [] -> hex_of_bytes (mc_build c cr)
+           | a :: rest ->
+             let i = String.index a '=' in
+             let f = ni (String.sub a 0 i) and v = String.sub a (i + 1) (String.length a - i - 1) in
+             let (zv, w, raw) =
+               if String.length v > 0 && v.[0] = 'x' then (Z0, N0, bytes_of_hex (String.sub v 1 (String.length v - 1)))
+               else (match String.index_opt v ':' with
+                     | Some j -> (z_of_dec (String.sub v 0 j), n_of_dec (String.sub v (j + 1) (String.length v - j - 1)), [])
+                     | None -> (z_of_dec v, N0, [])) in
+             (match mc_set c f zv w raw cr with
+              | SOk cr' -> go (k + 1) cr' rest
+              | SErr -> Printf.sprintf "ERR %d" k
+              | SPanic -> "PANIC")
+         in go 0 cr0 args)
+    | _ -> "BADARGS");
+  register "mc_seq" (function
+    | [n; ids] ->
+      let n = int_of_string n in
+      let ids = if ids = "-" then [] else List.map ni (String.split_on_char ',' ids) in
+      let builds = List.map (fun c -> match cr_new c with Some cr -> mc_build c cr | None -> failwith "id") ids in
+      let all = List.concat builds in
+      let buf = canary n in
+      if List.length all > n then "ERR " ^ hex_of_bytes buf
+      else Printf.sprintf "OK %d %s" (List.length all)
+             (hex_of_bytes (all @ List.filteri (fun i _ -> i >= List.length all) buf))
+    | _ -> "BADARGS");
+  register "ident" (fun a ->
+    let width = function
+      | "devaddr" | "mcaddr" -> 4 | "devnonce" -> 2 | "joinnonce" | "netid" -> 3 | "deveui" | "joineui" -> 8
+      | _ -> failwith "type" in
+    let str_of l = String.init (List.length l) (fun i -> Char.chr (int_of_n (List.nth l i))) in
+    let codes s = List.init (String.length s) (fun i -> n_of_int (Char.code s.[i])) in
+    match a with
+    | ["parse"; t; s] when t <> "key" && t <> "keys_deveui" ->
+      (match from_hex_msb (nat_of_int (width t)) (codes s) with Some v -> dec_of_n v | None -> "ERR")
+    | ["parse"; "key"; s] ->
+      (* hex::decode_to_slice into 16 bytes, MSB-first as stored *)
+      if String.length s mod 2 = 1 || String.length s <> 32 then "ERR"
+      else (match from_hex_msb (nat_of_int 16) (codes s) with Some _ -> String.lowercase_ascii s | None -> "ERR")
+    | ["parse"; "keys_deveui"; s] ->
+      if String.length s <> 16 then "ERR"
+      else (match from_hex_msb (nat_of_int 8) (codes s) with
+            | Some v -> hex_of_bytes (le_bytes (nat_of_int 8) v) | None -> "ERR")
+    | ["key"; h] -> h ^ " " ^ h
+    | ["keys_deveui"; h] ->
+      let v = le_value (bytes_of_hex h) in
+      let s = str_of (to_hex_msb (nat_of_int 8) v) in s ^ " " ^ h
+    | [t; v] ->
+      let w = width t in
+      let v = n_of_dec v in
+      let s = to_hex_msb (nat_of_int w) v in
+      let back = (match from_hex_msb (nat_of_int w) s with Some x -> dec_of_n x | None -> "ERR") in
+      Printf.sprintf "%s %s %s" (str_of s) back (hex_of_bytes (le_bytes (nat_of_int w) v))
+    | _ -> "BADARGS")
+
 let chip_index = function
   | "sx1261" | "sx1262" | "stm32wl" -> 0 | "sx1276" -> 1 | "sx1272" -> 2 | "lr1110" -> 3
   | _ -> failwith "chip"
